@@ -18,8 +18,10 @@ ASSUMPTIONS = [
     '_name_for_id(k) for pairwise distinct k < _next_name_id, not preserved '
     'and not kept',
     'populations larger than the symbolic entries rely on I being pairwise '
-    '(hand argument); int(id/26) == id//26 for 0 <= id < 2^31 in IEEE double',
+    '(hand argument); int(id/26) == id//26 for 0 <= id < 2^31 in IEEE double '
+    '(decided by z3 as a QF_BVFP query in the thorough tier: ref/fplemma.py)',
 ]
+PRECHECKS_THOROUGH = ['ref.fplemma']
 OUTSIDE = ['ids >= the stated bound; names longer than the stated bound']
 
 
